@@ -109,6 +109,19 @@ def crafted_words(ctx, tabs):
                 w = (k << 12) | i
                 for ty in ("f64", "f32"):
                     res.append((fam, ty, (), [w] + S.random_words(rng, 40)))
+        # the tail branch (layer 0, |u| X_0 >= X_1): many streams, both signs, random and extreme tail uniforms
+        ratio0 = xs[1] / xs[0]
+        ntail = 150 if ctx["tier"] == "quick" else 3000
+        for j in range(ntail):
+            frac = ratio0 + (1 - ratio0) * (rng.below(1 << 20) + 1) / float((1 << 20) + 2)
+            if which == 0:
+                k = (1 << 51) + (1 if j % 2 else -1) * int(frac * (1 << 51))
+            else:
+                k = int(frac * (1 << 52))
+            k = max(0, min((1 << 52) - 1, k))
+            tailw = S.random_words(rng, 40)
+            if j % 10 == 0: tailw[rng.below(4)] = rng.choice([0, 2**64 - 1, 1 << 12, (1 << 63)])
+            res.append((fam, "f64" if j % 3 else "f32", (), [(k << 12) | 0] + tailw))
     return res
 
 
